@@ -293,6 +293,12 @@ def eval_cases(prop_id, imports, cases, shard_size=400):
         def run(path):
             rel = os.path.relpath(path, COQ)
             rc, out = coqc_file(rel, timeout=900)
+            tries = 0
+            while rc != 0 and 'Error' not in out and tries < 2:
+                # killed without a Coq error message (the kernel OOM killer under machine load): evaluate it again
+                tries += 1
+                time.sleep(5 * tries)
+                rc, out = coqc_file(rel, timeout=900)
             return path, rc, out
 
         fail_m, fail_s = set(), set()
